@@ -101,11 +101,12 @@ CHECKS["C18"] = dict(
          "and the TREE-LEVEL theorem names_from_vocabulary: for EVERY parsed program (every structure, modifier, token kind, any nesting) "
          "every program-derived identifier of the transpiler model's output is sanitised and everything else the program supplies is a "
          "constant — mutual induction over transpileS / wrapLambda / transpileL / transpileLL; its only hypothesis on the tree is the "
-         "lexer's guarantee on variable tokens (vtokL), checked on the parser model's tree for every generated program. "
+         "lexer's guarantee on variable tokens (vtokL), which names_from_vocabulary_source discharges for EVERY source string: the lexer only "
+         "lets letters into variable tokens (lex_variable_letters) and the parser only puts tokens of its input into the tree (parse_vtok, "
+         "induction over the parser's recursion). "
          "Tie: AST correspondence; ast.walk oracle on the real output against the regenerated vocabulary, adversarial payloads at every "
          "program-text position (exhaustive to length 2/3) and random code-page / Unicode strings.",
-    note=COMMON_NOTE + "The step from the emitted text to the tree is the AST correspondence; that the parser only puts lexer tokens into the tree "
-         "(vtokL of the parsed tree) is checked per program, not proved. T3: repr(str)/str(int) produce valid literals.",
+    note=COMMON_NOTE + "The step from the emitted text to the tree is the AST correspondence. T3: repr(str)/str(int) produce valid literals.",
     technique="Lean 4 proof (mutual structural induction over the transpiler model, lexer loop invariants, induction on strings, kernel evaluation over tables); AST correspondence; ast.walk vocabulary oracle",
     ref="§5 C18")
 
